@@ -137,6 +137,15 @@ PROPS = {
         "not_decided": ["the observational statement (same replies, data and tree changes as when running alone) under interleavings on a shared backend: needs commutativity of backend operations on disjoint paths and a simulation argument (concurrency beyond this family)"],
         "explanation": "",
     },
+    "C20": {
+        "modules": ["contracts.c20_logs", "contracts.server_units"],
+        "extra": ["contracts.c20_logs.sink_audit"],
+        "level": "proof",
+        "trusted_base": [T_PY, T_ENGINE, T_SOLVER, T_AIO, "T-str / T-enc (rstrip lemma, lower uninterpreted, encode/decode inverse)", "logging: %-formatting of the record arguments happens inside the logging module; the payload of a record is its argument tuple"],
+        "assumptions": ["non-interference is shown per sink: each record emitted while the password is in scope equals a term over public data and len(password) only", "passwords the line protocol can carry: non-empty, no trailing whitespace (otherwise the server strips them before they become a password)"],
+        "not_decided": ["third-party logging handlers / filters", "text of exceptions logged by 'dispatcher caught exception' (UnicodeDecodeError shows the offending byte)", "a PASS separated from its argument by something other than one space is not a login command on either side"],
+        "explanation": "",
+    },
     "C06": {
         "modules": ["contracts.c06_framing"],
         "level": "proof",
